@@ -217,7 +217,7 @@ def minimise(binp, prog, failing):
 
 
 def run(pid, argv, *, module, theorems, gen, oracle, rule, nontrivial, extra_targets=(), trusted=(), assumptions=(),
-        level=None, allow_axioms=(), bridge=0):
+        level=None, allow_axioms=(), bridge=0, extra_obligations=None):
     if level is None:
         level = "proof" if module else "other"
     a, seed = vlib.args(argv)
@@ -248,6 +248,12 @@ def run(pid, argv, *, module, theorems, gen, oracle, rule, nontrivial, extra_tar
         chk.obligation("coq build " + " ".join(targets), ok, out)
         if not ok:
             broken.append("model does not compile: " + out[-800:])
+
+    if extra_obligations:
+        for name, ok, detail in extra_obligations():
+            chk.obligation(name, ok, detail)
+            if not ok:
+                broken.append(name + ": " + detail[:600])
 
     binp = reactive.build_driver(chk)
     if not binp:
